@@ -3,7 +3,7 @@ CONSTANTS
   Rows = {0, 1, 2, 3}
   Cols = {0, 1, 2, 3}
   Ops = {"SetValue","ClearValue","ImportValue","ImportValueClear","Snapshot","BgSnapshot","Reopen","Blocks"}
-  Scope = "small"
+  Scope = "mini"
   Depth = 5
   ShapeName = "bwb"
   InitMode = "any"
